@@ -339,6 +339,7 @@ func (s *Subscription) keepalive(pubreq PubReq) error {
 		Results:                  []ua.StatusCode{},
 		DiagnosticInfos:          []*ua.DiagnosticInfo{},
 	}
+	verifPoint("sub.keepalive", s.ID, msg.SequenceNumber)
 	err := s.Channel.SendResponseWithContext(context.Background(), pubreq.ID, response)
 	if err != nil {
 		return err
